@@ -463,7 +463,6 @@ Section NodeOk.
   Fixpoint expr_ok (e : expr) : bool :=
     match e with
     | EBin o a b => expr_ok a && expr_ok b && bin_entry_ok T o (ety T E MO a) (ety T E MO b)
-    | EUn Not a => expr_ok a
     | EUn o a => expr_ok a && un_entry_ok T o (ety T E MO a)
     | ECond c a b => expr_ok a && expr_ok b && cond_entry_ok T (ety T E MO a) (ety T E MO b)
     | EBoolOp a b => expr_ok a && expr_ok b && bool_entry_ok T (ety T E MO a) (ety T E MO b)
@@ -478,7 +477,7 @@ Definition bad_bin (T : tables) : list (nat * nat * nat) :=
      if bin_entry_ok T o t1 t2 then [] else [(binop_idx o, ty_idx t1, ty_idx t2)]) all_ty) all_ty) all_binop.
 Definition bad_un (T : tables) : list (nat * nat) :=
   flat_map (fun o => flat_map (fun t1 =>
-     if un_entry_ok T o t1 then [] else [(unop_idx o, ty_idx t1)]) all_ty) [Neg; Inv; Pos].
+     if un_entry_ok T o t1 then [] else [(unop_idx o, ty_idx t1)]) all_ty) all_unop.
 Definition bad_cond (T : tables) : list (nat * nat) :=
   flat_map (fun t1 => flat_map (fun t2 =>
      if cond_entry_ok T t1 t2 then [] else [(ty_idx t1, ty_idx t2)]) all_ty) all_ty.
